@@ -60,7 +60,7 @@ func methodName(kind string) string {
 	return map[string]string{"get-sth": "GetSTH", "add-chain": "AddChain", "add-pre-chain": "AddPreChain", "get-sth-consistency": "GetSTHConsistency",
 		"get-proof-by-hash": "GetProofByHash", "get-raw-entries": "GetRawEntries", "get-entries": "GetEntries", "get-roots": "GetAcceptedRoots",
 		"get-entry-and-proof": "GetEntryAndProof", "decode": "LogEntryFromLeaf",
-		"t-add-chain": "TemporalLogClient.AddChain", "t-add-pre-chain": "TemporalLogClient.AddPreChain"}[kind]
+		"t-add-chain": "TemporalLogClient.AddChain", "t-add-pre-chain": "TemporalLogClient.AddPreChain", "t-get-roots": "TemporalLogClient.GetAcceptedRoots"}[kind]
 }
 
 func (op *c12Op) resultZero() bool {
@@ -208,6 +208,10 @@ func (w *c12World) judge(op *c12Op) {
 	}
 	if op.Kind == "decode" {
 		w.judgeDecode(op)
+		return
+	}
+	if op.Kind == "t-get-roots" {
+		w.judgeTemporalRoots(op)
 		return
 	}
 	op.mu.Lock()
@@ -477,4 +481,98 @@ func clipBytes(b []byte, n int) []byte {
 		return b[:n]
 	}
 	return b
+}
+
+// judgeTemporalRoots: TemporalLogClient.GetAcceptedRoots asks every shard and returns the union of
+// their roots. "Malformed, truncated ... or non-200 responses on any endpoint produce errors ... never
+// partially filled results": the union is only a result if every shard answered acceptably.
+func (w *c12World) judgeTemporalRoots(op *c12Op) {
+	s := w.s
+	meth := methodName(op.Kind)
+	op.mu.Lock()
+	calls := append([]*rtCall(nil), op.Calls...)
+	op.mu.Unlock()
+	byShard := map[string]*rtCall{}
+	redirected := false
+	for _, c := range calls {
+		if c.Follow || (c.Out != nil && c.Out.isRedirect()) {
+			redirected = true // http.Client went on to other requests: which answer belongs to which shard is not reconstructed
+			continue
+		}
+		sh := "shard0"
+		if strings.HasPrefix(c.Path, "/sim2/") {
+			sh = "shard1"
+		}
+		if byShard[sh] != nil {
+			s.Violate("c12.temporal-roots", meth+"|asked-twice", "%s: %s asked %s for its roots more than once", op.Party, meth, sh)
+			return
+		}
+		byShard[sh] = c
+	}
+	// state of a shard's answer: good (must be usable), bad (must be refused), either
+	state := func(c *rtCall) (string, string) {
+		switch {
+		case c == nil:
+			return "bad", "never-asked"
+		case c.Aborted || c.TimedOut || c.Out == nil:
+			return "bad", "unanswered"
+		case c.Out.Stall:
+			return "bad", "stall"
+		case c.Out.NetErr || c.Out.isRedirect():
+			return "either", mutClass(c.Out.Kind)
+		case c.Out.Status != 200 || c.Out.CutAt >= 0 || c.Out.Expect == expectFail:
+			return "bad", mutClass(c.Out.Kind)
+		case c.Out.Honest:
+			return "good", "correct"
+		}
+		return "either", mutClass(c.Out.Kind)
+	}
+	st0, k0 := state(byShard["shard0"])
+	st1, k1 := state(byShard["shard1"])
+	if redirected {
+		st0, st1 = "either", "either"
+	}
+	ended := op.ctx.Err() != nil
+	if op.Err != nil {
+		s.Probe("err." + op.Kind)
+		if op.Roots != nil {
+			s.Violate("c12.partial-result", meth, "%s: %s returned error %v together with %d roots", op.Party, meth, op.Err, len(op.Roots))
+			return
+		}
+		if st0 == "good" && st1 == "good" && !ended {
+			s.Violate("harness", "c12.correct-answer-refused|"+meth, "%s: %s refused two correct shard answers: %v", op.Party, meth, op.Err)
+		}
+		return
+	}
+	s.Probe("ok." + op.Kind)
+	for _, x := range [][3]string{{"shard0", st0, k0}, {"shard1", st1, k1}} {
+		if x[1] == "bad" {
+			s.Violate("c12.accepted-bad-response", meth+"|"+x[2], "%s: %s returned %d roots and no error although %s's answer was %s (the union of some shards is a partially filled result)", op.Party, meth, len(op.Roots), x[0], x[2])
+			return
+		}
+	}
+	if st0 != "good" || st1 != "good" {
+		s.Probe("temporal-roots.either")
+		return // a mutated answer the statement does not force the client to refuse: the union is not judged
+	}
+	want := map[string]bool{string(w.pki.root.DER): true, string(w.subs[0].leaf.DER): true}
+	got := map[string]bool{}
+	for _, r := range op.Roots {
+		if got[string(r.Data)] {
+			s.Violate("c12.result-differs", meth+"|duplicate", "%s: %s returned the same root twice", op.Party, meth)
+			return
+		}
+		got[string(r.Data)] = true
+	}
+	if len(got) != len(want) {
+		s.Violate("c12.result-differs", meth+"|union", "%s: %s returned %d roots, the two shards serve %d distinct ones", op.Party, meth, len(got), len(want))
+		return
+	}
+	for k := range want {
+		if !got[k] {
+			s.Violate("c12.result-differs", meth+"|union", "%s: %s: a root served by a shard is missing from the union", op.Party, meth)
+			return
+		}
+	}
+	s.Probe("verified.temporal-roots")
 }
